@@ -233,7 +233,7 @@ Section Run.
     - destruct H as [I B]. destruct e as [k| | |]; cbn [r_caller r_world r_panicked accepted_sum];
         (split; [split; [reflexivity|split; assumption]|]); intros rest; try reflexivity.
     - destruct H as (I & B & ->). destruct e as [k| | |]; cbn [r_caller r_world r_panicked accepted_sum];
-        (split; [split; [reflexivity|repeat split; assumption]|]); intros rest; lia.
+        (split; [split; [reflexivity|split; [exact I|split; [exact B|reflexivity]]]|]); intros rest; lia.
   Qed.
 
   Lemma run_inv sched : forall r, RInv r ->
@@ -302,7 +302,7 @@ Section Run.
     - exact Hb.
     - destruct (N.leb_spec (len L) (bytes_sent (cx_state x) + accepted_sum true sched)) as [Q|Q].
       + apply Hc. rewrite Hb. lia.
-      + destruct (r_completed _) eqn:C; [|reflexivity]. apply Hc in C. rewrite Hb in C. lia.
+      + destruct (r_completed _) eqn:C; [|reflexivity]. destruct Hc as [Hc1 _]. specialize (Hc1 eq_refl). rewrite Hb in Hc1. lia.
   Qed.
 End Run.
 
@@ -314,3 +314,214 @@ Proof. destruct x as [c m st]. reflexivity. Qed.
 
 Lemma resume_into_progress x : resume (cx_conn x) (cx_msg x) (into_progress x) = x.
 Proof. destruct x. reflexivity. Qed.
+
+(* ---------------------------------------------------------------- write / write_all / Drop *)
+
+Section Write.
+  Variables (hb body fds : list N) (serial : N) (w0 : world).
+  Let L := hb ++ body.
+  Notation INV := (Inv hb body fds serial w0).
+
+  (* Drop panics exactly on a partially sent message *)
+  Lemma drop_ctx_spec x w : INV x w ->
+    (drop_ctx x = Panic <-> 0 < bytes_sent (cx_state x) < len L) /\ (drop_ctx x = Panic \/ drop_ctx x = Ok tt).
+  Proof.
+    intros I. pose proof (Inv_total _ _ _ _ _ _ _ I) as T. destruct I as (_ & _ & _ & _ & G & _). fold L in G, T.
+    unfold drop_ctx, all_bytes_written. rewrite T.
+    destruct (N.eqb_spec (bytes_sent (cx_state x)) 0) as [Z|Z];
+      destruct (N.eqb_spec (bytes_sent (cx_state x)) (len L)) as [Q|Q]; cbn [negb andb];
+      (split; [split; [intros E; try discriminate; lia|intros E; try reflexivity; lia]|auto]).
+  Qed.
+
+  (* write(timeout) under any decisions of clock and kernel: never a panic; Ok only with every byte
+     written and with the message's serial; otherwise the context comes back in a state from which
+     sending can continue (the invariant holds) *)
+  Theorem write_spec ds : forall x w, INV x w ->
+    exists x' w' r, write x w ds = (x', w', r) /\ INV x' w'
+      /\ bytes_sent (cx_state x) <= bytes_sent (cx_state x')
+      /\ match r with
+         | Ok s => s = serial /\ bytes_sent (cx_state x') = len L
+         | Err | OutOfFuel => True
+         | Panic | UB => False
+         end.
+  Proof.
+    induction ds as [|d ds IH]; intros x w I; cbn [write].
+    - exists x, w, OutOfFuel. split; [reflexivity|split; [exact I|split; [lia|trivial]]].
+    - destruct d as [[k|]|].
+      + destruct (write_once_accept_inv hb body fds serial w0 x w k I) as (x' & w' & E & Hbs & _ & I').
+        cbv zeta in E. rewrite E.
+        pose proof (Inv_total _ _ _ _ _ _ _ I') as T. unfold all_bytes_written at 1. rewrite T.
+        destruct (N.eqb_spec (bytes_sent (cx_state x')) (len (hb ++ body))) as [Q|Q].
+        * exists x', w'.
+          assert (D : drop_ctx x' = Ok tt).
+          { unfold drop_ctx, all_bytes_written. rewrite T.
+            destruct (N.eqb_spec (bytes_sent (cx_state x')) (len (hb ++ body))); [|contradiction].
+            now rewrite andb_false_r. }
+          rewrite D. cbn [bind]. eexists. split; [reflexivity|]. split; [exact I'|]. split; [lia|].
+          split; [apply I'|exact Q].
+        * destruct (IH x' w' I') as (x'' & w'' & r & Ew & I'' & Hm & Hr).
+          exists x'', w'', r. split; [exact Ew|]. split; [exact I''|]. split; [lia|exact Hr].
+      + rewrite (write_once_again_inv _ _ _ _ _ _ _ I). exists x, w, Err. split; [reflexivity|split; [exact I|split; [lia|trivial]]].
+      + exists x, w, Err. split; [reflexivity|split; [exact I|split; [lia|trivial]]].
+  Qed.
+
+  (* every byte written <-> the peer holds the whole message, with its descriptors, once *)
+  Lemma Inv_complete x w : INV x w -> 0 < len L -> bytes_sent (cx_state x) = len L ->
+    wire w = wire w0 ++ hb ++ body /\ fds_delivered w = fds_delivered w0 ++ fds.
+  Proof.
+    intros (_ & _ & _ & _ & _ & Hw & Hf) P Q. fold L in Hw. rewrite Q in *. split.
+    - rewrite Hw. f_equal. apply firstnN_all. unfold L. lia.
+    - rewrite Hf. destruct (N.eqb_spec (len L) 0); [lia|reflexivity].
+  Qed.
+
+  (* write_all on a blocking socket (every sendmsg takes at least one byte) returns Ok after at most
+     as many iterations as there are bytes left *)
+  Theorem write_all_terminates ds : forall x w, INV x w ->
+    Forall (fun d => exists k, d = WKernel (KAccept k) /\ 1 <= k) ds ->
+    bytes_sent (cx_state x) < len L -> len L - bytes_sent (cx_state x) <= len ds ->
+    exists x' w', write x w ds = (x', w', Ok serial) /\ INV x' w' /\ bytes_sent (cx_state x') = len L.
+  Proof.
+    induction ds as [|d ds IH]; intros x w I F P Hn.
+    - rewrite len_nil in Hn. lia.
+    - inversion F as [|? ? (k & -> & Hk) F']; subst. cbn [write].
+      destruct (write_once_accept_inv hb body fds serial w0 x w k I) as (x' & w' & E & Hbs & _ & I').
+      cbv zeta in E. rewrite E.
+      pose proof (Inv_total _ _ _ _ _ _ _ I') as T. unfold all_bytes_written at 1. rewrite T.
+      destruct (N.eqb_spec (bytes_sent (cx_state x')) (len (hb ++ body))) as [Q|Q].
+      + exists x', w'.
+        assert (D : drop_ctx x' = Ok tt).
+        { unfold drop_ctx, all_bytes_written. rewrite T.
+          destruct (N.eqb_spec (bytes_sent (cx_state x')) (len (hb ++ body))); [|contradiction].
+          now rewrite andb_false_r. }
+        rewrite D. cbn [bind]. split; [|split; [exact I'|exact Q]].
+        f_equal. f_equal. apply I'.
+      + fold L in Q, Hbs. rewrite len_cons in Hn.
+        assert (G : bytes_sent (cx_state x') <= len L) by apply I'.
+        apply (IH x' w' I' F'); lia.
+  Qed.
+End Write.
+
+(* ---------------------------------------------------------------- from send_message *)
+
+Section FromSendMessage.
+  Variable hdr_fields : message -> option (list N).
+
+  Lemma send_message_ctx c m c' x : send_message hdr_fields c m = Ok (c', Some x) ->
+    exists serial,
+      cx_conn x = c' /\ cx_msg x = m /\ cx_state x = {| bytes_sent := 0; st_serial := serial |}
+      /\ marshal hdr_fields m serial [] = Ok (header_buf c')
+      /\ match dh_serial (msg_dyn m) with
+         | Some p => serial = p /\ serial_counter c' = serial_counter c
+         | None => serial = serial_counter c /\ serial_counter c' = serial_counter c + 1 /\ serial_counter c + 1 < 2^32
+         end.
+  Proof.
+    unfold send_message. destruct (dh_serial (msg_dyn m)) as [p|]; cbn [bind].
+    - cbn [header_buf serial_counter].
+      destruct (marshal hdr_fields m p []) as [h| | | |] eqn:E; try discriminate.
+      intros H. inversion H; subst; clear H. exists p. cbn [cx_conn cx_msg cx_state header_buf serial_counter]. repeat split; auto.
+    - unfold alloc_serial. destruct (N.ltb_spec (serial_counter c + 1) (2^32)) as [Lt|Lt]; cbn [bind]; [|discriminate].
+      cbn [header_buf serial_counter].
+      destruct (marshal hdr_fields m (serial_counter c) []) as [h| | | |] eqn:E; try discriminate.
+      intros H. inversion H; subst; clear H. exists (serial_counter c).
+      cbn [cx_conn cx_msg cx_state header_buf serial_counter]. repeat split; auto.
+  Qed.
+
+  (* the context returned by send_message starts the invariant, whatever the peer already holds *)
+  Lemma send_message_inv c m c' x w0 : conn_ok c -> op_wf (OpSend m) ->
+    send_message hdr_fields c m = Ok (c', Some x) ->
+    Inv (header_buf c') (msg_body m) (msg_raw_fds m) (ctx_serial x) w0 x w0
+    /\ bytes_sent (cx_state x) = 0
+    /\ 16 <= len (header_buf c')
+    /\ wire_serial (header_buf c') = Some (ctx_serial x)
+    /\ ctx_serial x = match dh_serial (msg_dyn m) with Some p => p | None => serial_counter c end.
+  Proof.
+    intros Hc Hw H. destruct (send_message_ctx _ _ _ _ H) as (s & E1 & E2 & E3 & Em & Es).
+    unfold ctx_serial. rewrite E3. cbn [st_serial bytes_sent].
+    assert (Hs : s < 2^32 /\ s = match dh_serial (msg_dyn m) with Some p => p | None => serial_counter c end).
+    { cbn [op_wf] in Hw. destruct (dh_serial (msg_dyn m)) as [p|].
+      - destruct Es as [-> _]. split; [apply (Hw p eq_refl)|reflexivity].
+      - destruct Es as (-> & _ & _). split; [apply Hc|reflexivity]. }
+    destruct Hs as [Hs1 Hs2].
+    split; [|split; [reflexivity|split; [eapply marshal_len_ge_16; exact Em|split; [eapply marshal_wire_serial; eauto|exact Hs2]]]].
+    unfold Inv. rewrite E1, E2, E3. cbn [bytes_sent st_serial]. repeat split; auto.
+    - lia.
+    - now rewrite firstnN_0, app_nil_r.
+    - now rewrite app_nil_r.
+  Qed.
+
+  (* C10, stated from the API: send one message under any schedule *)
+  Theorem send_exactly_once : forall c m c' x w0 sched,
+    conn_ok c -> op_wf (OpSend m) -> send_message hdr_fields c m = Ok (c', Some x) ->
+    send_spec (header_buf c') (msg_body m) (msg_raw_fds m) (ctx_serial x) w0 (run_send x w0 sched).
+  Proof.
+    intros c m c' x w0 sched Hc Hw H.
+    destruct (send_message_inv c m c' x w0 Hc Hw H) as (I & Z & G & Hws & _).
+    apply run_send_spec; auto. rewrite Z, len_app. lia.
+  Qed.
+
+  Theorem send_closed_form : forall c m c' x w0 sched,
+    conn_ok c -> op_wf (OpSend m) -> send_message hdr_fields c m = Ok (c', Some x) ->
+    let r := run_send x w0 sched in
+    let total := accepted_sum true sched in
+    wire (r_world r) = wire w0 ++ firstnN total (header_buf c' ++ msg_body m)
+    /\ bytes_sent (r_state r) = N.min (len (header_buf c' ++ msg_body m)) total
+    /\ r_completed r = (len (header_buf c' ++ msg_body m) <=? total).
+  Proof.
+    intros c m c' x w0 sched Hc Hw H.
+    destruct (send_message_inv c m c' x w0 Hc Hw H) as (I & Z & G & Hws & _).
+    pose proof (run_send_closed_form _ _ _ _ _ x w0 I) as C. rewrite Z in C.
+    apply C. rewrite len_app. lia.
+  Qed.
+
+  (* send_message_write_all: Ok(s) means the peer holds header ++ body and the descriptors, once,
+     after what it held before, and s is the serial in the header; no panic in any case *)
+  Theorem send_message_write_all_spec : forall c m w0 ds c' w' r,
+    conn_ok c -> op_wf (OpSend m) ->
+    send_message_write_all hdr_fields c m w0 ds = (c', w', r) ->
+    match r with
+    | Ok s => wire w' = wire w0 ++ header_buf c' ++ msg_body m
+              /\ fds_delivered w' = fds_delivered w0 ++ msg_raw_fds m
+              /\ wire_serial (header_buf c') = Some s
+              /\ s = match dh_serial (msg_dyn m) with Some p => p | None => serial_counter c end
+    | Err | OutOfFuel => exists p, wire w' = wire w0 ++ p   (* whatever was written stays a continuation *)
+    | Panic => dh_serial (msg_dyn m) = None /\ serial_counter c + 1 = 2^32    (* "run out of serials" *)
+    | UB => False
+    end.
+  Proof.
+    intros c m w0 ds c' w' r Hc Hw. unfold send_message_write_all.
+    destruct (send_message hdr_fields c m) as [[c1 [x|]]| | | |] eqn:E.
+    - destruct (send_message_inv c m c1 x w0 Hc Hw E) as (I & Z & G & Hws & Hser).
+      destruct (write_spec _ _ _ _ _ ds x w0 I) as (x' & w'' & r' & Ew & I' & _ & Hr).
+      rewrite Ew. intros H. inversion H; subst; clear H.
+      assert (Hhb : header_buf (cx_conn x') = header_buf c1) by apply I'.
+      destruct r as [s| | | |]; try contradiction.
+      + destruct Hr as [-> Q]. rewrite Hhb.
+        destruct (Inv_complete _ _ _ _ _ _ _ I') as [A B]; [rewrite len_app; lia|exact Q|].
+        repeat split; auto.
+      + destruct I' as (_ & _ & _ & _ & _ & A & _). eauto.
+      + destruct I' as (_ & _ & _ & _ & _ & A & _). eauto.
+    - intros H. injection H as Ec Ew Er. subst c' w' r. exists []. now rewrite app_nil_r.
+    - intros H. injection H as Ec Ew Er. subst c' w' r. exists []. now rewrite app_nil_r.
+    - intros H. injection H as Ec Ew Er. subst c' w' r. revert E. unfold send_message.
+      destruct (dh_serial (msg_dyn m)) as [p|]; cbn [bind].
+      + pose proof (marshal_total hdr_fields m p) as (T1 & T2 & T3). cbn [header_buf serial_counter].
+        destruct (marshal hdr_fields m p []); try congruence; discriminate.
+      + destruct (alloc_serial_spec c Hc) as [[Lt ->]|[Eq ->]]; cbn [bind]; [|auto].
+        pose proof (marshal_total hdr_fields m (serial_counter c)) as (T1 & T2 & T3). cbn [header_buf serial_counter].
+        destruct (marshal hdr_fields m (serial_counter c) []); try congruence; discriminate.
+    - exfalso. revert E. unfold send_message.
+      destruct (dh_serial (msg_dyn m)) as [p|]; cbn [bind].
+      + pose proof (marshal_total hdr_fields m p) as (T1 & T2 & T3). cbn [header_buf serial_counter].
+        destruct (marshal hdr_fields m p []); try congruence; discriminate.
+      + destruct (alloc_serial_spec c Hc) as [[Lt ->]|[Eq ->]]; cbn [bind]; [|discriminate].
+        pose proof (marshal_total hdr_fields m (serial_counter c)) as (T1 & T2 & T3). cbn [header_buf serial_counter].
+        destruct (marshal hdr_fields m (serial_counter c) []); try congruence; discriminate.
+    - exfalso. revert E. unfold send_message.
+      destruct (dh_serial (msg_dyn m)) as [p|]; cbn [bind].
+      + pose proof (marshal_total hdr_fields m p) as (T1 & T2 & T3). cbn [header_buf serial_counter].
+        destruct (marshal hdr_fields m p []); try congruence; discriminate.
+      + destruct (alloc_serial_spec c Hc) as [[Lt ->]|[Eq ->]]; cbn [bind]; [|discriminate].
+        pose proof (marshal_total hdr_fields m (serial_counter c)) as (T1 & T2 & T3). cbn [header_buf serial_counter].
+        destruct (marshal hdr_fields m (serial_counter c) []); try congruence; discriminate.
+  Qed.
+End FromSendMessage.
